@@ -178,6 +178,10 @@ OPTION_TUPLES = [
 ]
 
 
+class ArgumentMutated(Exception):
+    pass
+
+
 def apply_api(api: str, m: onnx.ModelProto, opts: dict) -> onnx.ModelProto:
     """Run one real entry point on a copy; returns the resulting ModelProto (exceptions propagate)."""
     import onnxscript.optimizer as opt
@@ -192,7 +196,12 @@ def apply_api(api: str, m: onnx.ModelProto, opts: dict) -> onnx.ModelProto:
             mi = ir.serde.deserialize_model(mc)
             r = opt.optimize(mi, **opts)
             return ir.serde.serialize_model(r)
-        return opt.optimize(mc, **opts)
+        # optimize(ModelProto) returns a new proto and must leave its argument as it was (commit 0d5ec74)
+        before = mc.SerializeToString(deterministic=True)
+        r = opt.optimize(mc, **opts)
+        if mc.SerializeToString(deterministic=True) != before:
+            raise ArgumentMutated("optimize(ModelProto) modified the proto it was given")
+        return r
     if api == "fold_constants":
         fo = {k: v for k, v in opts.items() if k in ("onnx_shape_inference", "input_size_limit", "output_size_limit")}
         if as_ir:
